@@ -11,6 +11,7 @@ MODULES = [
     "contracts.c_strict",
     "contracts.c_fresh",
     "contracts.c_tzparse",
+    "contracts.c_formats",
 ]
 
 STANDINS = [
@@ -29,6 +30,7 @@ LEVELS = {
     "C10": "proof",
     "C04": "proof",
     "C11": "other",
+    "C14": "other",
 }
 
 _COMMON = [
